@@ -130,6 +130,8 @@ fn query_points(tier: Tier) -> Vec<usize> {
                 p *= 2;
             }
             v.extend([10_000, 10_001, 20_000, 50_000]);
+            // regression points of the repaired t-quantile defect (statrs' inverse cdf fails there)
+            v.extend([49_519, 87_818]);
         }
         Tier::Thorough => v.extend(2..=101_000),
     }
@@ -198,7 +200,32 @@ fn judge_stream<F: Fl>(pts: &[usize], npat: usize, confs: &[(Kind, f64)], s: &mu
     }
 }
 
+/// D3: the one-shot entry points on long materialised vectors (the streaming checks of D2
+/// only exercise `append`): same oracle, exact statistics from the run lengths
+fn judge_long_vector<F: Fl>(pi: usize, n: usize, confs: &[(Kind, f64)], s: &mut Sink) {
+    let pat = PATTERNS[pi];
+    let data: Vec<F> = (0..n).map(|i| F::of(pat[i % pat.len()])).collect();
+    let ex = prefix_stats::<F>(pat, n);
+    let e = expect_for::<F>(&ex);
+    for &(kind, level) in confs {
+        let c = conf(kind, level);
+        for st in STYLES_ALL {
+            s.evals += 1;
+            s.calls += 1;
+            let case = || json!({"check":"D3","type":F::NAME,"pattern":pi,"n":n,"kind":kind,"level":level,"style":st});
+            match run_style::<F>(st, c, &data) {
+                Err(err) => s.violation(format!("D3/valid-sample-rejected/{}", vcheck::err_name(&err)), format!("{st:?} on {n} values of pattern {pat:?} ({}) = Err({err})", F::NAME), case()),
+                Ok(iv) => {
+                    judge_interval(&format!("D3/{st:?}"), kind, level, shape(&iv), &e, &case, &|| format!("{st:?}({c:?}, {n} values cycling {pat:?} as {})", F::NAME), s);
+                    s.outcome(&(F::NAME, "D3", format!("{st:?}"), kind));
+                }
+            }
+        }
+    }
+}
+
 enum Job {
+    Long { pattern: usize, n: usize, f32_: bool },
     /// a dyadic sequence multiplied by 2^e (exact): small / large magnitudes
     Scaled { len: usize, idx: u64, e: i32, f32_: bool },
     Seq { dyadic: bool, len: usize, idx: u64, f32_: bool },
@@ -233,6 +260,11 @@ fn run(tier: Tier) -> Sink {
                 }
             }
         }
+        for pattern in 0..PATTERNS.len() {
+            for n in [1_000usize, 30_000, 250_000] {
+                jobs.push(Job::Long { pattern, n, f32_ });
+            }
+        }
         let pts = query_points(tier);
         for chunk in pts.chunks(tier.pick(400, 1500)) {
             jobs.push(Job::Stream { f32_, pts: chunk.to_vec() });
@@ -240,7 +272,15 @@ fn run(tier: Tier) -> Sink {
     }
     let npat = tier.pick(3, 5);
     // thorough D1 at full length uses the reduced style set beyond length 5 to bound cost
+    let long_confs = [(Kind::Two, 0.95), (Kind::Upper, 0.9), (Kind::Lower, 0.25)];
     par_judge(&jobs, |j, s| match j {
+        Job::Long { pattern, n, f32_ } => {
+            if *f32_ {
+                judge_long_vector::<f32>(*pattern, *n, &long_confs, s)
+            } else {
+                judge_long_vector::<f64>(*pattern, *n, &long_confs, s)
+            }
+        }
         Job::Scaled { len, idx, e, f32_ } => {
             let k = 2f64.powi(*e);
             let xs: Vec<f64> = nth_sequence(A_DYADIC.len(), *len, *idx).into_iter().map(|i| A_DYADIC[i] * k).collect();
@@ -281,6 +321,15 @@ fn replay_case(case: &Value, s: &mut Sink) {
     let kind: Kind = serde_json::from_value(case["kind"].clone()).unwrap_or(Kind::Two);
     let level = case["level"].as_f64().unwrap_or(0.95);
     let f32_ = case["type"] == "f32";
+    if case["check"] == "D3" {
+        let (pi, n) = (case["pattern"].as_u64().unwrap() as usize, case["n"].as_u64().unwrap() as usize);
+        if f32_ {
+            judge_long_vector::<f32>(pi, n, &[(kind, level)], s)
+        } else {
+            judge_long_vector::<f64>(pi, n, &[(kind, level)], s)
+        }
+        return;
+    }
     if case["check"] == "D1" {
         let xs: Vec<f64> = serde_json::from_value(case["xs"].clone()).unwrap();
         if f32_ {
@@ -313,7 +362,7 @@ fn main() {
     s.sample(json!({"check":"D1","type":"f32","xs":[0.1,0.1,0.1],"kind":"Two","level":0.95,"oracle":"constant sample: [x, x]"}));
     s.sample(json!({"check":"D2","type":"f64","pattern":[1.0,-1.0],"n":100000,"kind":"Two","level":0.99,"oracle":"dof 99999: t CDF (normal accepted within 1% of the switch)"}));
     rep.rule = format!(
-        "D1: every sequence of length 2..{} over {:?} (length 2..3 also scaled by 2^e, e in {{-300,-60,-30,40,300}} for f64 and {{-40,-20,20,40}} for f32) and of length 2..{} over {:?} x {} confidences x f64,f32 x call styles {:?}; D2: {} streaming patterns fed one value at a time, queried at {} sample sizes ({}) x confidences x f64,f32, plus the cross-pattern invariance of half-width/se; distinct by (type, kind, constant?, result bits) and (type, pattern, kind, dof decade)",
+        "D1: every sequence of length 2..{} over {:?} (length 2..3 also scaled by 2^e, e in {{-300,-60,-30,40,300}} for f64 and {{-40,-20,20,40}} for f32) and of length 2..{} over {:?} x {} confidences x f64,f32 x call styles {:?}; D2: {} streaming patterns fed one value at a time, queried at {} sample sizes ({}) x confidences x f64,f32, plus the cross-pattern invariance of half-width/se; D3: all six one-shot / chunked entry points on materialised vectors of 1e3, 3e4 and 2.5e5 values of each pattern; distinct by (type, kind, constant?, result bits) and (type, pattern, kind, dof decade)",
         tier.pick(4, 6), A_DYADIC, tier.pick(3, 4), A_NONDYADIC, vcheck::confs(tier).len(), match tier { Tier::Quick => &STYLES_QUICK[..], Tier::Thorough => &STYLES_ALL[..] },
         tier.pick(3, 5), query_points(tier).len(), tier.pick("every n in 2..3000 and 99000..101000, powers of two, 200001", "every n in 2..101000, 131072, 200001")
     );
